@@ -1,8 +1,10 @@
 /-
   C18 — the property theorems restated about the REGENERATED source.  `Props/C18Src.lean` proves that the definitions
-  translated on every run from `OnlineVariance.reset`, `.update`, `.variance` and `.combine_variance`
-  (taurex/util/math.py) are the model's `Acc.empty`, `update` (a stream of them: `accOf`), `variance` and
-  `combine nanByValue`; `Props/C18.lean` proves the property about these.  The corollaries below compose the two: they are
+  translated on every run from `OnlineVariance.reset`, `.update`, `.variance`, `.combine_variance`, `.parallelVariance`
+  (taurex/util/math.py), the generator `sample_iter` of `Optimizer.generate_profiles` and `Optimizer.compute_derived_trace`
+  (taurex/optimizer/optimizer.py) are the model's `Acc.empty`, `update` (a stream of them: `accOf`), `variance`,
+  `combine nanByValue`, `parallelVariance nanByValue`, `strided` and `derivedTraceGather`; `Props/C18.lean` proves the
+  property about these.  The corollaries below compose the two: they are
   statements about the text of the code as it is now, over ℝ.
 
   What is composed
@@ -18,19 +20,20 @@
       With `ranks = parts.map accOf` the accumulators are, by `srcStream_eq`, those the regenerated `reset`/`update` leave
       behind, and the gathered variance objects are those the regenerated `variance` property returns
       (`src_variance_stream`).
-    * the part of `parallelVariance` around the call — `if mean is None: mean = np.nan` (`meanObj`), the gathers, and the
-      test `sum(all_counts) < 2 → np.nan` — is NOT translated.  The corollaries therefore speak of the `combine_variance`
-      call, i.e. the branch `sum(all_counts) ≥ 2`, and keep that hypothesis visible (`2 ≤ … length`).
+    * `srcRankVariance exch parts r` = what rank `r` reports: the regenerated `parallelVariance()` (tie
+      `src_parallelVariance`) called on the attributes `srcStream parts[r]` left by the regenerated `reset`/`update`, the k-th
+      `mpi.allgather` being the rank-ordered list of what every rank contributes to it (`gatherAt`; the calling rank's entry is
+      the value the regenerated code computed), each through `exch`; `= pooledVariance exch parts` for EVERY rank.  This
+      covers the gathers, `if mean is None: mean = np.nan`, the test `sum(all_counts) < 2 → np.nan`, the call of
+      `combine_variance` and `finalvariance[-1]`.
+    * the generator `sample_iter` of `generate_profiles` (`sample_list[rank::size]`, tie `src_sample_iter`) and
+      `compute_derived_trace` for one derived parameter (`range(rank, n, size)`, the three `mpi.allreduce(…, 'SUM')`,
+      `argsort`, `[restore]`; tie `src_compute_derived_trace`), instantiated as in the ties.
 
-  Not restated (no tie)
-    * `pooled_lt2`, and the `xs.length < 2` case of `split_invariant`: the NaN comes from the test in
-      `parallelVariance`, which is not translated.
-    * `strided_partition`, `derived_order`, `derived_order_pinned`, `derived_order_tie_witness`: about `partition` /
-      `strided` (`sample_list[rank::size]` in `generate_profiles`) and `derivedTraceGather` (`compute_derived_trace`), not
-      translated for C18 (the re-ordering of `compute_derived_trace` is tied and restated in `Props/C09SrcProps.lean`).
-      `partition` appears below only as the way the sample list is cut into blocks.
-    * `nan_identity_witness`, and `derived_order_pinned`: regression models of the code BEFORE the fix commits
-      (`nanByIdentity`, `derivedTraceGatherPinned`); the source as it is now has no such function.
+  Not restated (no source function)
+    * `nan_identity_witness`, `derived_order_pinned`, and the pinned half of `derived_order_tie_witness`: regression models
+      of the code BEFORE the fix commits (`nanByIdentity`, `derivedTraceGatherPinned`); the source as it is now has no such
+      function.  The current-code half of `derived_order_tie_witness` is `src_derived_order_tie_witness`.
 -/
 import Props.C18
 import Props.C18Src
@@ -190,5 +193,163 @@ theorem src_split_invariant_sizes {s₁ s₂ : ℕ} (h₁ : 0 < s₁) (h₂ : 0 
     (hpos : ∀ p ∈ xs, 0 < p.2) (h2 : 2 ≤ xs.length) :
     (srcCombine ser ((partition s₁ xs).map accOf)).map (·.2) = (srcCombine ser ((partition s₂ xs).map accOf)).map (·.2) := by
   rw [(src_split_invariant h₁ xs hpos h2).2, (src_split_invariant h₂ xs hpos h2).2]
+
+/-! ### `parallelVariance` on every rank -/
+
+/-- the Python float `count` -/
+theorem cnt_lt2 (n : ℕ) : ((n : ℝ) < 2) ↔ n < 2 := by exact_mod_cast Iff.rfl
+
+theorem cnt_sum (l : List ℕ) : sumList (l.map (fun n : ℕ => (n : ℝ))) < 2 ↔ l.sum < 2 := by
+  have h : ∀ (l : List ℕ) (a : ℝ), (l.map (fun n : ℕ => (n : ℝ))).foldl (· + ·) a = a + (l.sum : ℕ) := by
+    intro l
+    induction l with
+    | nil => intro a; simp
+    | cons x l ih => intro a; rw [List.map_cons, List.foldl_cons, ih, List.sum_cons]; push_cast; ring
+  rw [sumList, h, zero_add]
+  exact_mod_cast Iff.rfl
+
+/-- what rank `r` reports: the regenerated `parallelVariance()` called on the attributes that the regenerated `reset()` /
+    `update(x, w)` stream over the rank's block `parts[r]` left behind (`srcStream`), the four `mpi.allgather`s returning the
+    rank-ordered contributions of all ranks (`gatherAt`), each through the exchange `exch`; `none` = the Python raises -/
+noncomputable def srcRankVariance (exch : Obj ℝ → Obj ℝ) (parts : List (List (ℝ × ℝ))) (r : ℕ) : Option (Val ℝ) :=
+  (Gen.SrcC18.parallelVariance (α := Obj ℝ) (M2 := (srcStream (parts.getD r [])).2.2.2.2.map Obj.ofNum)
+      (count := Obj.ofNum (srcStream (parts.getD r [])).1) (mean := (srcStream (parts.getD r [])).2.2.2.1.map Obj.ofNum)
+      (np_nan := npNan) (wcount := Obj.ofNum (srcStream (parts.getD r [])).2.1)
+      (allgather := gatherAt exch (fun n : ℕ => (n : ℝ)) (parts.map accOf) r) (is_np_nan := fun o => o.isNpNan)).map Obj.val
+
+theorem srcRankVariance_eq (exch : Obj ℝ → Obj ℝ) (hex : ∀ x : ℝ, exch (Obj.ofNum x) = Obj.ofNum x)
+    (parts : List (List (ℝ × ℝ))) (r : ℕ) (hr : r < parts.length) :
+    srcRankVariance exch parts r = pooledVariance exch parts := by
+  unfold srcRankVariance pooledVariance
+  have hl : parts.getD r [] = parts[r] := by simp [List.getD_eq_getElem?_getD, hr]
+  rw [hl, srcStream_eq]
+  have hc : List.foldl (fun (c : ℝ) (_ : ℝ × ℝ) => c + 1) 0 parts[r] = ((accOf parts[r]).count : ℝ) := by
+    rw [count_fold, zero_add, accOf_count]
+  have hr' : (parts.map accOf)[r]? = some (accOf parts[r]) := by simp [hr]
+  have := src_parallelVariance real_beq le_refl (fun n : ℕ => (n : ℝ)) cnt_lt2 cnt_sum exch hex (parts.map accOf) r
+    (accOf parts[r]) hr'
+  rw [← this]
+  show Option.map Obj.val (Gen.SrcC18.parallelVariance (α := Obj ℝ) (M2 := (pyOpt _ _).map Obj.ofNum) (count := Obj.ofNum _)
+    (mean := (pyOpt _ _).map Obj.ofNum) (np_nan := npNan) (wcount := Obj.ofNum _) (allgather := _) (is_np_nan := _)) = _
+  rw [hc]
+  rfl
+
+theorem ser_ofNum (x : ℝ) : ser (Obj.ofNum x) = Obj.ofNum x := rfl
+
+/-- **pooled_lt2**, about the regenerated `reset` / `update` / `variance` / `parallelVariance`: with fewer than two samples
+    in total EVERY rank reports NaN (the test `sum(all_counts) < 2` of `parallelVariance`), whatever the exchange does to the
+    identity of the gathered objects -/
+theorem src_pooled_lt2 (exch : Obj ℝ → Obj ℝ) (hex : ∀ x : ℝ, exch (Obj.ofNum x) = Obj.ofNum x)
+    (parts : List (List (ℝ × ℝ))) (hpos : ∀ part ∈ parts, ∀ p ∈ part, 0 < p.2) (h2 : parts.flatten.length < 2)
+    (r : ℕ) (hr : r < parts.length) : srcRankVariance exch parts r = some Val.nan := by
+  rw [srcRankVariance_eq exch hex parts r hr]; exact pooled_lt2 exch parts hpos h2
+
+example : srcRankVariance ser [[], [((3 : ℝ), (1 : ℝ))], []] 1 = some Val.nan :=
+  src_pooled_lt2 ser ser_ofNum _ (by
+    intro part hpart p hp
+    simp at hpart
+    rcases hpart with rfl | rfl | rfl <;> simp at hp
+    subst hp; norm_num) (by simp) 1 (by simp)
+
+/-- **combine_two_pass**, about the whole regenerated `parallelVariance` on every rank (gathers, the `< 2` test, the NaN
+    mean object of an empty rank, `combine_variance`): with positive weights and at least two samples in total every rank
+    reports the two-pass weighted variance of all samples, for ANY assignment of the samples to ranks -/
+theorem src_rank_two_pass (parts : List (List (ℝ × ℝ))) (hpos : ∀ part ∈ parts, ∀ p ∈ part, 0 < p.2)
+    (h2 : 2 ≤ parts.flatten.length) (r : ℕ) (hr : r < parts.length) :
+    srcRankVariance ser parts r = some (Val.fin (twoPassVar parts.flatten)) := by
+  rw [srcRankVariance_eq ser ser_ofNum parts r hr]; exact combine_two_pass parts hpos h2
+
+/-- **split_invariant** (in full: also below two samples), about the regenerated `reset` / `update` / `variance` /
+    `parallelVariance` / `combine_variance`: for every number of ranks, EVERY rank of the post-processing loop (strided blocks,
+    streaming update, gathers through pickling, the `< 2` test, pooled combination) reports what the single process without
+    mpi4py reports: the two-pass weighted variance of all samples, or NaN when there are fewer than two -/
+theorem src_split_invariant_full {size : ℕ} (hs : 0 < size) (xs : List (ℝ × ℝ)) (hpos : ∀ p ∈ xs, 0 < p.2)
+    (r : ℕ) (hr : r < size) :
+    srcRankVariance ser (partition size xs) r = srcRankVariance id [xs] 0 ∧
+    srcRankVariance ser (partition size xs) r
+      = if xs.length < 2 then some Val.nan else some (Val.fin (twoPassVar xs)) := by
+  rw [srcRankVariance_eq ser ser_ofNum _ r (by rw [partition_length]; exact hr),
+    srcRankVariance_eq id (fun _ => rfl) [xs] 0 (by simp)]
+  exact split_invariant hs xs hpos
+
+/-- **split_invariant_sizes** (in full), about the regenerated code: any two rank counts, any two ranks -/
+theorem src_split_invariant_sizes_full {s₁ s₂ : ℕ} (xs : List (ℝ × ℝ)) (hpos : ∀ p ∈ xs, 0 < p.2)
+    (r₁ r₂ : ℕ) (h₁ : r₁ < s₁) (h₂ : r₂ < s₂) :
+    srcRankVariance ser (partition s₁ xs) r₁ = srcRankVariance ser (partition s₂ xs) r₂ := by
+  rw [(src_split_invariant_full (by omega) xs hpos r₁ h₁).2, (src_split_invariant_full (by omega) xs hpos r₂ h₂).2]
+
+example : srcRankVariance ser (partition 2 [((1 : ℝ), (0.2 : ℝ)), (4, 0.3), (2, 0.5)]) 1 =
+    srcRankVariance ser (partition 7 [((1 : ℝ), (0.2 : ℝ)), (4, 0.3), (2, 0.5)]) 5 :=
+  src_split_invariant_sizes_full _ (by
+    intro p hp; simp at hp; rcases hp with rfl | rfl | rfl <;> norm_num) 1 5 (by norm_num) (by norm_num)
+
+/-! ### the rank partitions -/
+
+/-- **strided_partition**, about the regenerated generator `sample_iter` of `generate_profiles`
+    (`for parameters, weight in sample_list[rank::size]`): over the ranks `0 … size-1` the yielded weights are, concatenated, a
+    permutation of the weights of all samples (each sample exactly once); and when the samples are the indices `0 … n-1`
+    (the state of the forward model read as "the parameters last written"), rank `r` visits exactly the indices below `n`
+    congruent to `r` -/
+theorem src_strided_partition {P W : Type} {size : ℕ} (hs : 0 < size) (xs : List (P × ℝ)) (um : W → P → W) (w0 : W) :
+    (((List.range size).map (fun r => (Gen.SrcC18.sample_iter xs r size um w0).map Prod.snd)).flatten.Perm
+        (xs.map Prod.snd)) ∧
+    ∀ (n r i : ℕ) (wt : ℕ → ℝ) (i0 : ℕ), r < size →
+      (i ∈ (Gen.SrcC18.sample_iter ((List.range n).map (fun j => (j, wt j))) r size (fun _ p => p) i0).map Prod.fst
+        ↔ i < n ∧ i % size = r) := by
+  constructor
+  · have h1 : (List.range size).map (fun r => (Gen.SrcC18.sample_iter xs r size um w0).map Prod.snd)
+        = (partition size xs).map (List.map Prod.snd) := by
+      unfold partition
+      rw [List.map_map]
+      apply List.map_congr_left
+      intro r hr
+      rw [src_sample_iter xs r size (List.mem_range.1 hr), walk_snd]
+      rfl
+    rw [h1, ← List.map_flatten]
+    exact ((strided_partition hs xs).1).map _
+  · intro n r i wt i0 hr
+    rw [src_sample_iter _ r size hr, walk_fst, strided_map, List.map_map]
+    have : (Prod.fst ∘ fun j : ℕ => (j, wt j)) = id := rfl
+    rw [this, List.map_id]
+    exact (strided_partition hs ([] : List ℕ)).2.2 n r i hr
+
+example : (Gen.SrcC18.sample_iter [((10 : ℕ), (0.2 : ℝ)), (11, 0.5), (12, 0.3)] 0 2 (fun _ p => p) 0)
+    = [(10, 0.2), (12, 0.3)] := by
+  rw [src_sample_iter _ 0 2 (by norm_num)]
+  simp [strided, walk, List.zipIdx]
+
+/-! ### `compute_derived_trace` -/
+
+/-- **derived_order**, about the regenerated `compute_derived_trace` (one derived parameter): on every rank `r` of every
+    number of ranks — evaluation of the samples `range(r, n, size)`, gather of the per-rank traces and sample indices in rank
+    order, `argsort` of the gathered indices, `[restore]` — the stored trace is the trace in sample order -/
+theorem src_derived_order {P W : Type} (n size r : ℕ) (hr : r < size) (samples : ℕ → P) (weights : ℕ → ℝ)
+    (um : W → P → W) (ip : W → W) (dv : W → ℝ) (value : P → ℝ) (hdv : ∀ w p, dv (ip (um w p)) = value p) (w0 : W)
+    (average : List ℝ → List ℝ → ℝ) (quantile_corner : List ℝ → List ℝ → List ℝ → List ℝ) (q16 q50 q84 : ℝ) :
+    Gen.SrcC18.compute_derived_trace n
+        (allreduce := fun k => concatAt size r (sentTrace size n (fun i => value (samples i)) weights k))
+        (allreduce_nat := fun _ => concatAt size r (fun j => strided j size (List.range n)))
+        (argsort_nat := argsort) (average := average) (c0p16 := q16) (c0p5 := q50) (c0p84 := q84) (derived_values := dv)
+        (initialize_profiles := ip) (mpi_rank := r) (mpi_size := size) (quantile_corner := quantile_corner)
+        (samples := samples) (update_model := um) (w__ := w0) (weights := weights)
+      = (List.range n).map (fun i => value (samples i)) := by
+  rw [src_compute_derived_trace n size r hr samples weights um ip dv value hdv w0 average quantile_corner q16 q50 q84]
+  exact derived_order (by omega) _
+
+/-- the current-code half of **derived_order_tie_witness**, about the regenerated `compute_derived_trace`: three samples of
+    EQUAL weight on two ranks (gathered as `[t0, t2, t1]`) are stored in sample order, on both ranks -/
+theorem src_derived_order_tie_witness (r : ℕ) (hr : r < 2) :
+    Gen.SrcC18.compute_derived_trace (P := ℕ) (W := ℕ) 3
+        (allreduce := fun k => concatAt 2 r (sentTrace 2 3 (fun i => [(10 : ℝ), 11, 12].getD i 0) (fun _ => 1) k))
+        (allreduce_nat := fun _ => concatAt 2 r (fun j => strided j 2 (List.range 3)))
+        (argsort_nat := argsort) (average := fun _ _ => 0) (c0p16 := 0.16) (c0p5 := 0.5) (c0p84 := 0.84)
+        (derived_values := fun i => [(10 : ℝ), 11, 12].getD i 0) (initialize_profiles := id) (mpi_rank := r) (mpi_size := 2)
+        (quantile_corner := fun _ _ _ => []) (samples := fun i => i) (update_model := fun _ p => p) (w__ := 0)
+        (weights := fun _ => 1)
+      = [10, 11, 12] ∧ gatherLists (partition 2 [(10 : ℝ), 11, 12]) ≠ [10, 11, 12] := by
+  refine ⟨?_, by simp [gatherLists, partition, strided, List.range, List.range.loop, List.zipIdx]⟩
+  rw [src_derived_order 3 2 r hr (fun i => i) (fun _ => 1) (fun _ p => p) id (fun i => [(10 : ℝ), 11, 12].getD i 0)
+    (fun i => [(10 : ℝ), 11, 12].getD i 0) (fun _ _ => rfl)]
+  simp [List.range, List.range.loop]
 
 end Taurex.C18SrcProps
